@@ -159,9 +159,22 @@ def negate_tg(g, rnd, mode=None):
 # ---------------------------------------------------------------------------------------------
 # the real code
 # ---------------------------------------------------------------------------------------------
-def save_text(spec, fmt, blanks, min_t=None, max_t=None, min_len="default", via_file=True, report="silence"):
+def build_through_insert(spec):
+    """the same textgrid, its entries put in through insertEntry with every whole-number time given as a Python int (the way
+    users write them): defect A34 (fixed) - insertEntry kept the ints, both JSON formats wrote `4` and re-saved `4.0`"""
+    g = tgops.build(dict(spec, tiers=[dict(t, es=[]) for t in spec["tiers"]]))
+    for t in spec["tiers"]:
+        tier = g.getTier(t["name"])
+        for e in t["es"]:
+            tier.insertEntry(tuple(int(x) if float(x).is_integer() and abs(x) < 2 ** 53 else x for x in e[:-1]) + (e[-1],), "error", "silence")
+    if tgops.snap(g) != tgops.snap(tgops.build(spec)):
+        raise AssertionError("insertEntry did not rebuild the textgrid")
+    return g
+
+
+def save_text(spec, fmt, blanks, min_t=None, max_t=None, min_len="default", via_file=True, report="silence", through_insert=False):
     """text that Textgrid.save writes (through a real file), or the exception"""
-    g = tgops.build(spec)
+    g = build_through_insert(spec) if through_insert else tgops.build(spec)
     kw = {}
     if min_len != "default":
         kw["minimumIntervalLength"] = min_len
